@@ -2,6 +2,7 @@ package main
 
 import (
 	"fmt"
+	"go/token"
 	"go/types"
 	"sort"
 	"strings"
@@ -680,6 +681,17 @@ func ruleR09_45(c *Ctx) {
 					}
 					if ad, isLd := derefLoad(o.V); isLd {
 						if fa, isFA := ad.(*ssa.FieldAddr); isFA {
+							if al, isAl := fa.X.(*ssa.Alloc); isAl {
+								// a result cached BY VALUE, spilled into a local before its fields are read
+								sts := storesToCell(al)
+								okAll := len(sts) > 0
+								for _, st := range sts {
+									if okS, _ := allOrigins(st.Val, isStored); !okS {
+										okAll = false
+									}
+								}
+								return okAll
+							}
 							okB, _ := allOrigins(fa.X, isStored)
 							return okB
 						}
@@ -704,6 +716,12 @@ func ruleR09_45(c *Ctx) {
 				switch x := o.V.(type) {
 				case *ssa.Alloc: // &contentTypeValue{mt, cs}
 					ok = true
+				case *ssa.UnOp: // contentTypeValue{mt, cs} stored by value: the load of a literal built in a local
+					if al, isAl := x.X.(*ssa.Alloc); isAl && x.Op == token.MUL && al.Parent() == x.Parent() {
+						ok = true
+					} else if foreign == nil {
+						foreign = &o
+					}
 				case *ssa.Const:
 				default:
 					if x == comps[0].Value() {
